@@ -306,7 +306,7 @@ def register2(reg):
 
     for scls in ("Output", "TimeCachingAdapter"):
         reg.add(Contract(
-            f"{OUT}._pack", self_cls=scls, props=["C10.1", "C09.4"], params={"data": Pay}, result=Entry,
+            f"{OUT}._pack", self_cls=scls, props=["C10.1", "C09.4", "C08.1"], params={"data": Pay}, result=Entry,
             requires=lambda ctx: ctx.get(ctx.self, "_mem_counter").e >= 0,
             ensures=pack_post,
             modifies=lambda ctx: [(ctx.self, "_total_mem"), (ctx.self, "_mem_counter"), (WORLD, "$fexists"), (WORLD, "$fdata")],
